@@ -19,11 +19,14 @@ class Env:
         self.loop_head = None
         self.loop_entry = None
         self.bound = ()
+        self.point = None   # (block, instruction index) where source-level locals are resolved
         self.live = st      # the state that receives lemma instances / unfoldings (also while evaluating old(...))
 
     def with_state(self, st):
         e = Env(self.frame, st, self.old, self.results)
         e.live = self.live
+        e.point = self.point
+        e.loop_iter = getattr(self, 'loop_iter', None)
         e.vars = self.vars
         e.loop_head = self.loop_head
         e.loop_entry = self.loop_entry
@@ -38,6 +41,8 @@ class Env:
         e.loop_entry = self.loop_entry
         e.bound = self.bound + ((v,) if quantified else ())
         e.live = self.live
+        e.point = self.point
+        e.loop_iter = getattr(self, 'loop_iter', None)
         return e
 
 
@@ -168,7 +173,17 @@ class SpecEval:
                 if ins['op'] == 'Phi' and ins.get('comment') == 'rangeindex':
                     return fr.regs[ins['reg']].leaves[0] + 1
             raise SpecError('iter used in a loop that is not a range loop')
-        # source-level local
+        # source-level local: the value of the variable at the point where the clause is evaluated
+        pt = getattr(env, 'point', None)
+        if pt is not None:
+            r = fr.fn.reaching_ref(name, pt[0], pt[1])
+            if r is not None:
+                a, isaddr = r
+                if a['k'] != 'reg' or a['n'] in fr.regs:
+                    v = self.ex.operand(env.st, fr, a)
+                    if isaddr:
+                        return self.ex.load(env.st, self.ex.ptr_of(v))
+                    return v
         names = fr.fn.names()
         if name in names:
             cands = names[name]
@@ -404,6 +419,11 @@ class SpecEval:
             return self.eval(args[0], env.with_state(env.old))
         if name == 'atloop':
             return self.eval(args[0], env.with_state(env.loop_entry))
+        if name == 'athead':
+            # the value at the beginning of the current iteration (state at the loop head)
+            if getattr(env, 'loop_iter', None) is None:
+                raise SpecError('athead() outside a loop step')
+            return self.eval(args[0], env.with_state(env.loop_iter))
         if name == 'val':
             v = self.eval(args[0], env)
             return self.bigval(v, env, 'Int')
@@ -491,6 +511,11 @@ class SpecEval:
             return self.equal(a, b)
         if name == 'ref':
             return self.term(self.eval(args[0], env))
+        if name == 'arr':
+            v = self.eval(args[0], env)
+            if not isinstance(v, Val) or m.kind(v.t) != 'slice':
+                raise SpecError('arr() of a non-slice')
+            return v.leaves[0]
         if name == 'heapsame':
             # heapsame(bigint): the whole heap of that kind is unchanged since entry
             # every object of that heap that existed in the old state is unchanged
@@ -519,6 +544,7 @@ class SpecEval:
             e2.loop_entry = env.loop_entry
             e2.bound = env.bound
             e2.live = env.live
+            e2.point = env.point
             e2.vars = dict(env.vars)
             vals = [self.eval(a, env) for a in args]
             for p, v in zip(sd.params, vals):
@@ -542,6 +568,7 @@ class SpecEval:
         e2.vars = dict(env.vars)
         e2.bound = env.bound
         e2.live = env.live
+        e2.point = env.point
         actual = []
         for p, v in zip(sd.params, vals):
             if isinstance(v, Val) and (len(v.leaves) != 1 or m.kind(v.t) in ('pointer', 'map', 'slice', 'interface', 'struct')):
